@@ -22,7 +22,9 @@ CHECKS = {
         "interpreted on an abstract board (symbolic squares/cells) and must end in exactly the squares, side, en-passant mark, counters "
         "and castling-rights update the rules prescribe, with saturating counters only; update_castling and the castling constants are "
         "decoded against the home squares. Decides the per-step data movement for all inputs of each abstract case; it does not decide "
-        "that every concrete semilegal move falls into its case's pre-state (that is C06/C02's semilegality invariant).",
+        "that every concrete semilegal move falls into its case's pre-state (that is C06/C02's semilegality invariant). ADDED: "
+        "update_castling is tabulated - its model evaluated on all 4,096 (side to move, rights value, set of changed home squares +/- an "
+        "unrelated square) points removes exactly the rights whose king or rook home square changed, whatever the shape of its guards.",
    note=TB + "Assumes the pre-state of each abstract case (source holds mv.src_cell, castling squares hold king/rook/empty, en-passant victim behind dst)."),
  "C04": dict(cat="other", ref="DESIGN.md §3 C04",
    technique="abstract interpretation of do_unmake_move on the abstract post-state; memory-version check of the undo record; path rules on Make impls; null-move corner cases",
@@ -45,7 +47,7 @@ CHECKS = {
         "returned plus one repetition entry, every refused path records nothing; pop's Some-path pops, un-counts, clears the outcome and "
         "unmakes the live board with the popped pair in that order, its None-path mutates nothing; each chain field has a frozen set of "
         "writers; equality reads start, length, every move, outcome. Decides the recording discipline on all paths; 'current position = "
-        "replay' then follows from C03/C04 and is not established separately.",
+        "replay' then follows from C03/C04 and is not established separately. ADDED: the undo that pop and a refused push rely on is exact - do_unmake_move interpreted on the abstract post-state of every kind and colour restores squares, every occupancy set and all scalar fields (rule shared with C04), so the live board equals the replay also in the sets Board's == does not compare.",
    note=TB + "Make::make_raw implementations are treated as opaque here (their own discipline is C02/C04)."),
  "C14": dict(cat="other", ref="DESIGN.md §3 C14",
    technique="exhaustive tabulation of Outcome::passes/is_force by constant folding; abstract-input path classification of calc_outcome; key-table distinctness",
@@ -99,7 +101,7 @@ CHECKS = {
         "every Err path left the board untouched or rolled back with the same pair; SAN conversion returns only validated or "
         "LegalFilter-searched moves; Board fields have two owning modules and unsafe API stays unsafe; the made position is per abstract "
         "case what the rules prescribe with rights re-examined (shared with C03). Validity of the result then rests on C01/C03; panic "
-        "freedom of the parsers is C12. ADDED: the safe make API reaches no assertion, panic or unsafe precondition (abstract interpreter, 13 roots); the semilegality validator and the legality checker are exact on abstract boards / as boolean set functions; compile-fail witnesses for the unsafe constructors and the private raw board.",
+        "freedom of the parsers is C12. ADDED: the safe make API reaches no assertion, panic or unsafe precondition (abstract interpreter, 13 roots); the semilegality validator and the legality checker are exact on abstract boards / as boolean set functions; compile-fail witnesses for the unsafe constructors and the private raw board. ADDED 2: the rollback of a refused move is exact (do_unmake_move on the abstract post-state of every kind restores squares, occupancy sets and scalars: shared with C04/K2).",
    note=TB + "The validity of resulting positions is not proved independently of C01/C03/C05."),
  "C08": dict(cat="other", ref="DESIGN.md §3 C08 / §9.8",
    technique="explicit-state exploration of the transition systems extracted from the effect trees of format_cells and parse_cells (all inputs at every step, states merged) against reference writer/reader automata; exhaustive abstract evaluation of the field-level writer and reader models over the finite field domain; tabulated letter tables",
@@ -112,11 +114,11 @@ CHECKS = {
         "parse-format-parse on accepted texts Display never writes, agreement with a reader other than the transcribed FEN grammar.",
    note=TB + "The models are the effect trees of the instantiated MIR; nothing of the library is executed."),
  "C09": dict(cat="other", ref="DESIGN.md §3 C09",
-   technique="path rules on SAN conversion (validated or filter-searched results only); exhaustive tabulation of searcher/detector tables; data-provenance rule on constructed moves",
+   technique="path rules on SAN conversion (validated or filter-searched results only); exhaustive tabulation of searcher/detector tables; data-provenance rule on constructed moves; exhaustive abstract evaluation of the Display/FromStr models over the finite SAN value domain",
    text="Static: parse soundness - san::Data::into_move returns Ok(mv) only after mv.validate(b) or from a searcher fed once by the "
         "legality-filtered candidate generators; hints honoured (mask for all 81 hint combinations, source filter, Empty/Found/Ambiguity); "
         "formatting tables - minimal disambiguation over the 8 flag combinations, flags only from other legal candidates of the same piece "
-        "and destination, '+'/'#' from the successor position, capture flag. Text-level round trip and 'standard notation' are not decided. ADDED: a move that into_move constructs itself takes its squares from the text only, and Simple/PawnCaptureShort always go through the hint-honouring searcher.",
+        "and destination, '+'/'#' from the successor position, capture flag. Text-level round trip and 'standard notation' are not decided. ADDED: a move that into_move constructs itself takes its squares from the text only, and Simple/PawnCaptureShort always go through the hint-honouring searcher. ADDED 2: the text level is tabulated - the model of Display for san::Move writes standard algebraic notation for castling, pawn moves/captures with promotions and piece moves with all 81 hint combinations x capture x check marks, and the model of FromStr reads each text back as the same value (rules/machine.py); the '#' mark's has_legal_moves runs every emitter but castling (C07/O3 re-run).",
    note=TB + "Letter tables are checked under C12 (alphabets)."),
  "C10": dict(cat="other", ref="DESIGN.md §3 C10",
    technique="exhaustive tabulation of UCI kind inference by constant propagation with a symbolic board-memory oracle; conversion tables; path rules on the readers; well-formedness and validator tabulations shared with C06",
@@ -124,7 +126,7 @@ CHECKS = {
         "destination empty/occupied x en-passant mark, and must agree - modulo tuples no reader can accept - with the UCI semantics "
         "(double step, en passant, castling, promotion, simple); kind/promotion/piece conversions and the n/b/r/q letter tables are "
         "mutually inverse; the semilegal/legal readers return Ok only after semi_validate/validate of the converted text on that board; "
-        "Null is never semilegal. 'Succeeds exactly when such a move exists' additionally needs C06/C01 and is not decided here. ADDED: the two gates every reader relies on are re-checked here: Move::is_well_formed on all 532,480 tuples and the semilegality validator on abstract boards.",
+        "Null is never semilegal. 'Succeeds exactly when such a move exists' additionally needs C06/C01 and is not decided here. ADDED: the two gates every reader relies on are re-checked here: Move::is_well_formed on all 532,480 tuples and the semilegality validator on abstract boards. ADDED 2: the text level is tabulated - the model of Display for uci::Move writes exactly the coordinate notation for every value (thorough: all 20,481) and the model of FromStr reads it back; near-miss texts are refused without a panic; the legal reader's last gate (Checker::is_legal: king examined on the occupancy after the move, capturing man on its destination) is re-checked (C01/N2, N4).",
    note=TB + "quick tier tabulates 6 representative source cells and 3 promotion values per colour, thorough all 13 x 5."),
  "C17": dict(cat="other", ref="DESIGN.md §3 C17",
    technique="loop-structure and index-discipline rules on the walker's effect trees; exhaustive GameStatus table; type facts; path classification of the list printer with decoded format templates; compile-fail witness",
@@ -139,7 +141,7 @@ CHECKS = {
    text="Static, premises only: Black's geometry constants are mirrors of White's and anchored to the rules (CTFE witness); pawn attack "
         "tables are rank mirrors and all near tables file-symmetric; pawns::advance_* tabulated mirror-consistent; every colour dispatcher "
         "pairs colours with matching instances; every run-time colour branch in position logic is a checked pair or reviewed; DIAG/ANTIDIAG "
-        "are indexed by their own numbering function. Symmetry of outcomes is not decided beyond C07's rules. ADDED: generator and validator of both colour instances equal one reference that is symmetric under both mirrors (rules shared with C06), which decides the symmetry of semilegal move sets; outcomes and legal filtering are symmetric as far as C01/C07's rules go.",
+        "are indexed by their own numbering function. Symmetry of outcomes is not decided beyond C07's rules. ADDED: generator and validator of both colour instances equal one reference that is symmetric under both mirrors (rules shared with C06), which decides the symmetry of semilegal move sets; outcomes and legal filtering are symmetric as far as C01/C07's rules go. ADDED 2: the legality filter over the semilegal moves is the symmetric reference too (pinned set by the set formula over all pinners, pin shortcut, after-move king test: C01/N2-N4 re-run).",
    note=TB + "Reviewed list of 19 colour-branching functions in rules/symrules.py, one reason each."),
  "C20": dict(cat="other", ref="DESIGN.md §3 C20",
    technique="compile-time witness crate (rustc const evaluation, exhaustive loops) + constant-folding tabulation of char tables, operators, Coord::shift; abstract interpretation for totality; compile-fail witnesses",
@@ -147,7 +149,7 @@ CHECKS = {
         "rank/flip/diagonal arithmetic, named constant sets on all 64 squares, cell/colour/castling-rights algebra, bitboard set operations "
         "on all one- and two-square sets); from_char accepts exactly the documented spellings on 0x300 code points and inverts as_char; "
         "operators are the u64 primitive; Coord::shift tabulated on 23,104 points. String-level round trips, deposit_bits and iteration "
-        "order are not decided (they need evaluation over 64-bit data). ADDED: bitboard operations are total (abstract interpreter, 10 roots: no overflow/shift/bounds assertion reachable); checked constructors reject out-of-range indices already in const evaluation (compile-fail witnesses).",
+        "order are not decided (they need evaluation over 64-bit data). ADDED: bitboard operations are total (abstract interpreter, 10 roots: no overflow/shift/bounds assertion reachable); checked constructors reject out-of-range indices already in const evaluation (compile-fail witnesses). ADDED 2: string level - Display/FromStr models of Coord, Cell, Color, CastlingRights evaluated on every value (written in the documented spelling, read back as itself), near-miss texts refused, and CastlingRights::from_str swept over all 1,554 texts of 1-4 characters over {K,Q,k,q,-,x}.",
    note=TB + "The witness crate is type-checked by stable cargo against /repo's chess_base."),
  "C12": dict(cat="other", ref="DESIGN.md §3 C12",
    technique="abstract interpretation of instantiated MIR (intervals, slice-length/ASCII/UTF-8 object facts, may-be-set bits, checked loop "
